@@ -101,6 +101,8 @@ def translate(hist):
         if kind == "sticky":
             T.sticky = list(op["faults"] or [])
             continue
+        if kind == "wait":
+            continue   # real time passes; the model's clock stands still (tracker ages are chosen so that this makes no difference on a correct tree)
         if kind == "add":
             b = "{| bid := %s; buser := %s; euser := %s; prefixes := %s |}" % (C.slit(op["id"]), C.slit(op["buser"]), C.slit(op["euser"]), C.llit(C.slit(p) for p in op["prefixes"]))
             valid = True
@@ -406,6 +408,11 @@ def oracle_c18(h):
     res = []
     for row in h:
         op, obs = row["op"], row["obs"]
+        if op["op"] == "alist" and obs.get("status") in (200, -1) and "put_tracker" not in (op.get("faults") or []):
+            # the liveness window is counted from the agent's last poll
+            age = obs.get("tracker_age_after_s", 0)
+            if age is not None and (age < 0 or age > 5):
+                res.append(("poll-did-not-refresh-liveness", "after a pending-list call by its agent, backend %r was last seen %.0f s ago" % (op["backend"], age), _base(h, row)))
         if op["op"] != "ustart" or not op["user"] or op.get("faults") or "gt_backends" not in obs:
             continue
         if obs.get("outcome") == "returned" and obs.get("resp_tag"):
